@@ -254,7 +254,7 @@ pub fn msim_supplement(prop: &str, scenario: &str, tier: crate::driver::Tier, se
     let verif = std::env::var("VERIF_DIR").unwrap_or_else(|_| "/verif".to_string());
     let n: u64 = prop.trim_start_matches('C').parse().unwrap_or(0);
     let (workloads, mseeds) = match tier {
-        crate::driver::Tier::Quick => (16u64, 12u64),
+        crate::driver::Tier::Quick => (24u64, 12u64),
         crate::driver::Tier::Thorough => (256, 16),
     };
     // workload seeds depend on VERIF_SEED and the property, Miri seeds are 0..mseeds
